@@ -64,14 +64,25 @@ Theorem parens_irrelevant_eval : forall tbl e e' rest env f f' x x' r r',
 Proof. exact parens_irrelevant_eval_l. Qed.
 Print Assumptions parens_irrelevant_eval.
 
-(* PARTIAL (what is missing: a proof that [enough_fuel] always suffices): with the fuel the extracted
-   driver uses, the answer is the tree or an explicit out-of-fuel report, never another tree *)
-Theorem roundtrip_parse_partial : forall tbl e rest,
+(* fuel is only recursion depth: with ANY fuel the answer is that tree or an explicit out-of-fuel
+   report - never another tree and never a parse error (the driver doubles the fuel until the answer is
+   not out-of-fuel; [roundtrip_general] says such a fuel exists) *)
+Theorem roundtrip_any_fuel : forall tbl e rest,
+  table_total tbl = true -> wf e = true -> folb tbl 0 rest = true ->
+  safeb false (pr tbl 0 e ++ rest) = true ->
+  forall g, p_assign tbl g (pr tbl 0 e ++ rest) = Ok (strip e, rest) \/
+            p_assign tbl g (pr tbl 0 e ++ rest) = Fuel.
+Proof. exact roundtrip_any_fuel_l. Qed.
+Print Assumptions roundtrip_any_fuel.
+
+(* PARTIAL (missing: a proof that the closed-form bound [enough_fuel] always suffices; it is the first
+   fuel the driver tries) *)
+Theorem enough_fuel_partial : forall tbl e rest,
   table_total tbl = true -> wf e = true -> folb tbl 0 rest = true ->
   safeb false (pr tbl 0 e ++ rest) = true ->
   parse tbl (pr tbl 0 e ++ rest) = Ok (strip e, rest) \/ parse tbl (pr tbl 0 e ++ rest) = Fuel.
 Proof. exact roundtrip_parse_l. Qed.
-Print Assumptions roundtrip_parse_partial.
+Print Assumptions enough_fuel_partial.
 
 (* the documented groupings, on concrete streams, for any total table *)
 Theorem binary_left_assoc : forall tbl, table_total tbl = true ->
